@@ -15,7 +15,7 @@ CF = [dict(nx=2, ny=3, symmetry=True, side="left", nsurf=1), dict(nx=3, ny=3, sy
       dict(nx=2, ny=2, symmetry=True, side="right", nsurf=3), dict(nx=3, ny=3, symmetry=True, side="right", nsurf=1, _tier=T)]
 
 
-@job("c05.kernel", ("C05",), ranges=[(r"^(r1|r2|r|u)", -1.5, 1.5), (r"^scale$", 1e-3, 10.0, "log")], cost=3)
+@job("c05.kernel", ("C05", "C04", "C06", "C07", "C08", "C09", "C19"), ranges=[(r"^(r1|r2|r|u|q1|q2)", -1.5, 1.5), (r"^scale$", 1e-3, 10.0, "log"), (r"^far$", 1e2, 1e7, "log")], cost=3)
 def kernel(env):
     """the repository's vortex kernels (full real bodies) equal the textbook Biot-Savart formulas (on the branch where the
     kernel's tolerance mask is inactive)"""
@@ -29,6 +29,15 @@ def kernel(env):
     r2 = env.var("r2", (3,)) * sc
     env.eq("C05", "finite vortex segment == Biot-Savart (r1 x r2)/|r1 x r2|^2 (r1-r2).(r1/|r1| - r2/|r2|) / 4pi",
            env.call(E._compute_finite_vortex, r1, r2), vlm.seg_textbook(xp, r1, r2))
+    # pointwise: the velocity one segment induces at one point does not depend on what else is evaluated in the same call
+    # (another surface 1e2 ... 1e7 chords away shares the arrays)
+    far = env.var("far", ())
+    q1 = env.var("q1", (3,)) * far
+    q2 = env.var("q2", (3,)) * far
+    both = env.call(E._compute_finite_vortex, np.array([r1, q1], dtype=object if env.sym else float), np.array([r2, q2], dtype=object if env.sym else float))
+    env.eq("C05,C19", "finite vortex segment is evaluated pointwise: a far-away pair in the same call does not change the near one",
+           both[0], env.call(E._compute_finite_vortex, r1, r2))
+    env.eq("C05,C19", "... nor the near pair the far one", both[1], env.call(E._compute_finite_vortex, q1, q2))
     u = env.var("u", (3,))
     r = env.var("r", (3,)) * sc
     env.eq("C05", "semi-infinite trailing leg == (u x r) / (|r| (|r| - u.r)) / 4pi",
